@@ -47,6 +47,8 @@ type sconn struct {
 	initKey  int
 	acked    bool
 	muted    bool // stop answering pings
+	nc       *countingConn // the TCP connection under the WebSocket (its writes can be held)
+	held     bool
 	ids      map[int]string // subscriber -> wire id
 	rev      map[string]int
 	nsent    map[int]int
@@ -57,6 +59,8 @@ type sconn struct {
 	sseW    http.ResponseWriter
 	sseDone chan struct{}
 }
+
+type netConnKey struct{}
 
 type server struct {
 	rec    *recorder
@@ -77,7 +81,8 @@ func newServer(rec *recorder, reg *netRegistry, tuples []tuple, prefer string) (
 		return nil, err
 	}
 	sv := &server{rec: rec, tuples: tuples, proto: prefer, ln: &countingListener{Listener: ln, reg: reg}, arrive: make(chan struct{}, 64)}
-	sv.hs = &http.Server{Handler: sv, ReadHeaderTimeout: time.Minute}
+	sv.hs = &http.Server{Handler: sv, ReadHeaderTimeout: time.Minute,
+		ConnContext: func(ctx context.Context, c net.Conn) context.Context { return context.WithValue(ctx, netConnKey{}, c) }}
 	go sv.hs.Serve(sv.ln)
 	return sv, nil
 }
@@ -206,7 +211,8 @@ func (c *sconn) markGone(rec *recorder, how string) {
 }
 
 func (sv *server) ServeHTTP(w http.ResponseWriter, r *http.Request) {
-	c := &sconn{path: r.URL.Path, hdr: r.Header.Get("X-Verif-K"), gate: make(chan string, 1), ids: map[int]string{}, rev: map[string]int{}, nsent: map[int]int{}}
+	nc, _ := r.Context().Value(netConnKey{}).(*countingConn)
+	c := &sconn{nc: nc, path: r.URL.Path, hdr: r.Header.Get("X-Verif-K"), gate: make(chan string, 1), ids: map[int]string{}, rev: map[string]int{}, nsent: map[int]int{}}
 	for _, p := range r.Header.Values("Sec-WebSocket-Protocol") {
 		for _, q := range strings.Split(p, ",") {
 			if q = strings.TrimSpace(q); q != "" {
@@ -406,22 +412,57 @@ func (sv *server) serveSSE(w http.ResponseWriter, r *http.Request, c *sconn) {
 	}
 }
 
-func (c *sconn) sseEvent(kind, v string, s, n int) error {
+// sseEvent writes one event block in framing variant f (all of them mean the same event):
+//
+//	plain      event: K / data: D
+//	bare       event: complete with no data line at all (only for complete; plain otherwise)
+//	emptydata  event: complete / "data:" without the blank after the colon
+//	noevent    data: D without an event line (next only: an event without a type is data)
+//	comment    a keep-alive comment block first, a comment line inside the block
+//	multiline  the JSON document split over two data: lines
+//	crlf       CRLF line ends
+func (c *sconn) sseEvent(kind, v, f string, s, n int) error {
 	c.mu.Lock()
 	w := c.sseW
 	c.mu.Unlock()
 	if w == nil {
 		return errors.New("no stream")
 	}
-	var b string
+	var data string
 	switch kind {
 	case "next":
-		b = "event: next\ndata: " + payload(v, s, n) + "\n\n"
+		data = payload(v, s, n)
 	case "error":
-		b = fmt.Sprintf("event: error\ndata: [{\"message\":\"e\",\"extensions\":{\"s\":%d,\"n\":%d}}]\n\n", s, n)
-	case "complete":
-		b = "event: complete\ndata: \n\n"
+		data = fmt.Sprintf("[{\"message\":\"e\",\"extensions\":{\"s\":%d,\"n\":%d}}]", s, n)
 	}
+	lines := []string{"event: " + kind, "data: " + data}
+	pre := ""
+	switch f {
+	case "bare":
+		if kind == "complete" {
+			lines = []string{"event: complete"}
+		}
+	case "emptydata":
+		if kind == "complete" {
+			lines = []string{"event: complete", "data:"}
+		}
+	case "noevent":
+		if kind == "next" {
+			lines = []string{"data: " + data}
+		}
+	case "comment":
+		pre = ": keep-alive\n\n"
+		lines = []string{": about to send", lines[0], lines[1]}
+	case "multiline":
+		if i := strings.Index(data, ","); kind != "complete" && i > 0 {
+			lines = []string{lines[0], "data: " + data[:i+1], "data: " + data[i+1:]}
+		}
+	}
+	nl := "\n"
+	if f == "crlf" {
+		nl = "\r\n"
+	}
+	b := pre + strings.Join(lines, nl) + nl + nl
 	if _, err := io.WriteString(w, b); err != nil {
 		return err
 	}
